@@ -264,6 +264,16 @@ func dec6(b []byte) (out map[string]any, d dhcpv6.DHCPv6) {
 	}
 	reuse(in) // the caller's buffer receives the next datagram: the decoded value is read after that
 	out = map[string]any{"ok": true, "val": proj6(d)}
+	if ownDecoded {
+		// what a decoder returns belongs to the caller: a twin of the value is written over, so that a later decode that
+		// shares memory with an earlier result (a table of common values, a cache) shows
+		if twin, err := dhcpv6.FromBytes(append([]byte(nil), b...)); err == nil {
+			func() {
+				defer func() { recover() }()
+				scribbleValue(reflect.ValueOf(twin), 0)
+			}()
+		}
+	}
 	if c := untypedKnown(d); c >= 0 {
 		// an option of a code the library has a type for came back as an opaque value: whatever its bytes, it is not the
 		// typed value the decoder owes for that code (no field, no layout rule applied)
